@@ -20,6 +20,7 @@ import (
 	"iter"
 	"maps"
 	"net/http"
+	"net/textproto"
 	"slices"
 	"strconv"
 	"strings"
@@ -52,7 +53,7 @@ func initNormalizationHeader() {
 			"Content-Encoding",
 			// The below can also accept quality values, see RFC 9110
 			"Accept-Encoding",
-			"TE",
+			"Te", // canonical form of "TE": the tables are consulted with canonical names
 		} {
 			normalizationHeader.byEncoding[field] = struct{}{}
 		}
@@ -123,6 +124,8 @@ func normalizeFieldValue(field, value string) string {
 	}
 
 	initNormalizationHeader()
+	// The tables are keyed by canonical field names ("Te", not "TE").
+	field = textproto.CanonicalMIMEHeaderKey(field)
 	switch {
 	case hasNormalizationHeader(normalizationHeader.byEncoding, field):
 		value = normalizeEncodingHeader(value)
